@@ -236,11 +236,12 @@ def jobs(tier):
     shapes = [(), (None,), (None, None)]
     for lead in (38, 48):
         shapes += [(lead,), (lead, None), (lead, 5), (lead, 5, None), (lead, 2), (lead, 2, None), (lead, 2, None, None),
-                   (lead, 2, None, None, None), (lead, 5, None, None), (lead, 2, None, None, None, None),
-                   (None, lead, 5, None)]
+                   (lead, 2, None, None, None)]
+    shapes += [(38, 5, None, None), (48, 2, None, None, None, None), (None, 48, 5, None)]
     if tier == 'thorough':
         shapes += [(None, None, None), (38, None, None, None), (48, None, None, None), (38, 5, None, 48, 5, None),
-                   (None, 38, 2, None, None, None), (38, 2, None, None, None, None, None)]
+                   (None, 38, 2, None, None, None), (38, 2, None, None, None, None, None), (48, 5, None, None),
+                   (38, 2, None, None, None, None), (None, 38, 5, None)]
     for sh in shapes:
         name = ';'.join('n' if x is None else str(x) for x in sh) or 'empty'
         js.append(Job('api/' + name, path_sgr, shape=sh, geom=g, prop=PROP))
